@@ -582,5 +582,15 @@ func (g *SQLGen) Agg7(table string, join string) *proto.NStmt {
 			return &proto.Cond{Op: []string{"=", "!="}[r.Intn(2)], LHS: &proto.Operand{Col: f.Name}, RHS: model.LitOp(proto.Str([]string{"1", "12", ""}[r.Intn(3)]))}
 		})
 	}
+	// LIMIT / OFFSET apply to the aggregated result, never to its input: an
+	// ungrouped aggregate with LIMIT 1 still covers every row
+	if r.Chance(1, 5) {
+		if r.Chance(2, 3) {
+			n.HasLimit, n.Limit = true, []int{0, 1, 1, 2, 5}[r.Intn(5)]
+		}
+		if !n.HasLimit || r.Chance(1, 3) {
+			n.HasOffset, n.Offset = true, []int{0, 0, 1, 2}[r.Intn(4)]
+		}
+	}
 	return n
 }
